@@ -34,6 +34,8 @@ struct SourcesDoc {
 pub struct Facts {
     pub all: Vec<Fact>,
     pub sources: Vec<(u64, String)>,
+    /// (id, description, url) of every shipped source, in file order
+    pub sources_full: Vec<(u64, String, Option<String>)>,
     pub undecodable: Vec<String>,
 }
 
@@ -43,6 +45,7 @@ pub fn facts() -> &'static Facts {
         let mut all = Vec::new();
         let mut undecodable = Vec::new();
         let mut sources = Vec::new();
+        let mut sources_full = Vec::new();
         let mut names: Vec<_> = std::fs::read_dir(format!("{}/db", crate::runner::repo_root())).expect("db dir").filter_map(|e| e.ok()).map(|e| e.path()).collect();
         names.sort();
         for p in names {
@@ -55,6 +58,7 @@ pub fn facts() -> &'static Facts {
                 let doc: SourcesDoc = serde_cbor::from_reader(GzDecoder::new(&bytes[..])).expect("sources decode");
                 for s in doc.sources {
                     sources.push((s.id, s.description.to_string()));
+                    sources_full.push((s.id, s.description.to_string(), s.url.as_ref().map(|u| u.to_string())));
                 }
                 continue;
             }
@@ -74,7 +78,7 @@ pub fn facts() -> &'static Facts {
                 }
             }
         }
-        Facts { all, sources, undecodable }
+        Facts { all, sources, sources_full, undecodable }
     })
 }
 
